@@ -235,18 +235,58 @@ def unwrap(n):
     return n
 
 
-def order_of(n):
+VARDECLS = {}     # decl id -> VarDecl node (locals, static members, namespace-scope constants) of the current dump
+
+
+def collect_vardecls(objs):
+    VARDECLS.clear()
+    stack = list(objs)
+    while stack:
+        n = stack.pop()
+        if not isinstance(n, dict):
+            continue
+        if n.get("kind") == "VarDecl" and "id" in n:
+            VARDECLS.setdefault(n["id"], n)
+        stack.extend(n.get("inner", []))
+
+
+def order_of(n, depth=0):
+    """memory order denoted by an argument expression: an enumerator / std::memory_order_xxx constant directly, or through
+    const / constexpr local variables, static constexpr members and default arguments (followed to their initialiser).
+    Returns None when the expression is not a memory order at all, "?what" when it is one that is not a compile-time
+    constant the translator can evaluate (reported loudly by the caller)."""
     n = unwrap(n)
-    if n.get("kind") == "CXXDefaultArgExpr":
-        return "SeqCst"
-    if n.get("kind") == "DeclRefExpr":
-        nm = n.get("referencedDecl", {}).get("name", "")
-        ty = n.get("type", {}).get("qualType", "")
-        if "memory_order" in ty or nm.startswith("memory_order"):
-            nm = nm.replace("memory_order_", "")
-            if nm in ORDERS:
-                return ORDERS[nm]
-            return "?" + nm
+    while n.get("kind") in ("CXXStaticCastExpr", "CStyleCastExpr", "CXXFunctionalCastExpr", "ConstantExpr", "SubstNonTypeTemplateParmExpr") and n.get("inner"):
+        n = unwrap(n["inner"][-1])
+    k = n.get("kind")
+    ty = n.get("type", {}).get("qualType", "")
+    if k == "CXXDefaultArgExpr":
+        sub = [c for c in n.get("inner", []) if isinstance(c, dict)]
+        if sub:
+            return order_of(sub[0], depth + 1)
+        return "SeqCst"          # std::atomic's own default
+    if k in ("DeclRefExpr", "MemberExpr"):
+        ref = n.get("referencedDecl", {}) if k == "DeclRefExpr" else {"id": n.get("referencedMemberDecl"), "name": n.get("name", "")}
+        nm = ref.get("name", "") or ""
+        short = nm.replace("memory_order_", "")
+        if ref.get("kind") in ("EnumConstantDecl", None, "VarDecl") and short in ORDERS and ("memory_order" in ty or nm.startswith("memory_order")):
+            return ORDERS[short]
+        vd = VARDECLS.get(ref.get("id"))
+        if vd is not None and depth < 8:
+            vty = vd.get("type", {}).get("qualType", "")
+            init = [c for c in vd.get("inner", []) if isinstance(c, dict) and not c.get("kind", "").endswith("Attr")]
+            is_const = vty.startswith("const ") or vd.get("constexpr") or " const" in vty
+            if init:
+                r = order_of(init[-1], depth + 1)
+                if r is not None:
+                    if r.startswith("?"):
+                        return r
+                    return r if is_const else "?non-const variable " + nm
+        if "memory_order" in ty:
+            return "?" + (nm or "expression")
+        return None
+    if "memory_order" in ty:
+        return "?" + (k or "expression")
     return None
 
 
@@ -267,6 +307,7 @@ def obj_name(n):
 class Walker:
     def __init__(self, objs):
         self.objs = objs
+        collect_vardecls(objs)
         self.ctxname = {}      # decl id -> class chain
         self.found = {}        # site key -> list of order tuples
         self.fences = {}       # (class, fn) -> list of (order, in_branch)
